@@ -71,6 +71,24 @@ def main():
     c = Probe()
     sem.validate(c, progs2, name="bad_stop", batches=1)
     expect(len(c.violations) >= 1, "a stepping trace with one stop removed is rejected")
+    # I->S, TheoCliTrace
+    import cli
+    c = Probe()
+    cexecs = cli.record(c, src, progs, 2, 25, 3)
+    expect(cli.validate(c, cexecs, progs, name="cli_good") == len(cexecs) and not c.violations, "recorded theo -d sessions are accepted")
+    bad = copy.deepcopy(cexecs)
+    ev = next(e for e in bad[0][3:] if e["e"] == "cli" and e["cmd"] == "s")
+    ev["cur"][1] += 1
+    c = Probe()
+    cli.validate(c, bad, progs, name="cli_bad_cur")
+    expect(len(c.violations) >= 1, "a debugger session with one corrupted current line is rejected")
+    bad = copy.deepcopy(cexecs)
+    x, k = next((x, i) for x, ex in enumerate(bad) for i, e in enumerate(ex[:-1])
+                if i > 2 and e["cmd"] == "s" and ex[i - 1]["cur"] != e["cur"] and ex[i + 1]["cmd"] in "bdc")
+    del bad[x][k]
+    c = Probe()
+    cli.validate(c, bad, progs, name="cli_bad_drop")
+    expect(len(c.violations) >= 1, "a debugger session with one step command removed is rejected")
     print("self-test passed")
     return 0
 
